@@ -16,7 +16,16 @@ theorem inv_job_rotSetMeta {cfg : Cfg} (hg : cfg.Good) {s : St} {d : Disk} (h : 
   obtain ⟨rfl, rfl⟩ := hs
   have hnr : ∀ m, j.pc ≠ .rotRemove m := by rw [hpc]; intro m hm; cases hm
   have hfd := (h.mfd hj).fd hj hnr
-  obtain ⟨hsett, hmc, hmlt, hlk⟩ := hok.rot_facts he (m := m) (mf' := ⟨[snapshotRec cfg s e], []⟩) (by rw [hpc]; rfl)
+  obtain ⟨hsett, hmc, hmlt, hlk⟩ := hok.rot_facts he (m := m)
+    (P := Holds (lookup d.manifests m) fun mf => Holds mf.synced.head? fun r =>
+      mf = ⟨[{ snapshotRec cfg s e with nf := r.nf }], []⟩ ∧ m < r.nf ∧ r.nf ≤ s.nextFile ∧
+      (∀ t ∈ applyEdit s.live e, t < r.nf) ∧ e.jn.getD s.stJn < r.nf) (by rw [hpc]; rfl)
+  rw [holds_iff] at hlk
+  obtain ⟨mf1, hlk, hr1⟩ := hlk
+  rw [holds_iff] at hr1
+  obtain ⟨r1, _, hmf1, hr1a, hr1b, hr1c, hr1d⟩ := hr1
+  subst hmf1
+  generalize hx : r1.nf = x at *
   have hbc : j.pc.beforeCommit = true := by rw [hpc]; rfl
   have hlate : j.pc ≠ .mkJournal ∧ j.pc.tablesDone = true := by rw [hpc]; exact ⟨(by intro x; cases x), rfl⟩
   obtain ⟨mf, v0, v, hparts, hlv, hvl, hed, hvok', hmono'⟩ := h.commit_view hj he hbc hlate
@@ -29,13 +38,15 @@ theorem inv_job_rotSetMeta {cfg : Cfg} (hg : cfg.Good) {s : St} {d : Disk} (h : 
   rw [hlv] at hmir
   obtain ⟨m1, m2, m3⟩ : Mirror s v := hmir
   -- so the snapshot's view is the view after the edit
-  have hsv : viewAt cfg ⟨[snapshotRec cfg s e], []⟩ 0 =
-      some ⟨applyEdit v.live e, e.jn.getD v.jn, e.sq.getD v.sq, s.nextFile⟩ := by
-    rw [snapshot_view cfg hg, m1, m2, m3]
-  let v' : MView := ⟨applyEdit v.live e, e.jn.getD v.jn, e.sq.getD v.sq, s.nextFile⟩
+  have hsv : viewAt cfg ⟨[{ snapshotRec cfg s e with nf := x }], []⟩ 0 =
+      some ⟨applyEdit v.live e, e.jn.getD v.jn, e.sq.getD v.sq, x⟩ := by
+    rw [snapshot_view' cfg hg, m1, m2, m3]
+  let v' : MView := ⟨applyEdit v.live e, e.jn.getD v.jn, e.sq.getD v.sq, x⟩
+  have hvok'' : ViewOK d (must s) (issuedGrps s) v' :=
+    hvok'.with_nf (by rw [m1]; exact hr1c) (by rw [m2]; exact hr1d)
   let j' : Job := { j with pc := .rotRemove m }
   let d1 : Disk := { d with current := some m }
-  have hcur1 : curManifest d1 = some ⟨[snapshotRec cfg s e], []⟩ := by
+  have hcur1 : curManifest d1 = some ⟨[{ snapshotRec cfg s e with nf := x }], []⟩ := by
     show (some m).bind (lookup d.manifests) = _
     simp [hlk]
   have hlv1 : lastView cfg d1 = some v' := by
@@ -47,26 +58,25 @@ theorem inv_job_rotSetMeta {cfg : Cfg} (hg : cfg.Good) {s : St} {d : Disk} (h : 
     unfold MfdOK
     simp only [Option.map_some]
     rfl
-  obtain ⟨_, _, _, _, hjs, hss⟩ := hed.shape
-  obtain ⟨x, ex⟩ := Option.isSome_iff_exists.1 hjs
-  obtain ⟨y, ey⟩ := Option.isSome_iff_exists.1 hss
   have hmono := hed.mono
-  have hjn : v.jn ≤ e.jn.getD v.jn := by simp only [ex, Option.getD_some] at hmono ⊢; exact hmono.1
+  have hjn : v.jn ≤ e.jn.getD v.jn := hmono.1
   constructor
-  · exact h.disk.set_meta hlk rfl hsv hvok' (fun mf1 v01 hc1 hv01 => by
+  · exact h.disk.set_meta hlk rfl hsv hvok'' (fun mf1 v01 hc1 hv01 => by
       rw [hcur] at hc1; cases hc1
       rw [hparts.hv0] at hv01; cases hv01
       exact hmono')
-  · exact ManifestMono.single (d := d1) (m := m) hcur1 rfl rfl hsv (Nat.lt_succ_of_lt hmlt |> fun _ => hmlt)
+  · exact ManifestMono.single (d := d1) (m := m) hcur1 rfl rfl hsv hr1a
   · intro _
     apply ViewBounds.single hcur1 rfl hsv
-    simp only [ex, ey, Option.getD_some] at hmono ⊢
-    exact ⟨hmono.2.2.1, Nat.le_refl _, hmono.2.2.2.1⟩
+    exact ⟨hmono.2.2.1, hr1b, hmono.2.2.2.1⟩
   · intro hr
     have hrun := h.run hr
     rw [goto_eq]
     apply RunOK.job_step (d' := d1) hrun j' s.nextFile s.live s.stJn s.stSq s.manifestFd s.manifestOpen
-      (Nat.le_refl _) rfl ⟨hmfd', hrun.mfd.2⟩ hmlt (fun hb' => by cases hb')
+      (Nat.le_refl _) rfl ⟨hmfd', hrun.mfd.2⟩ hmlt (hrun.hnc_post (j' := j') hok hj hr rfl rfl (fun hk => by
+        rw [hlv1, hlv]
+        obtain ⟨a, b⟩ := (hok.edit_nums he).1 hk
+        simp only [Holds, a, b, Option.getD_none, Nat.le_refl, and_self, v']))
     rw [hcur1]
     simp only [Holds, hsv, hcur, hparts.hv0]
     exact hmono'
@@ -84,7 +94,7 @@ theorem inv_job_rotSetMeta {cfg : Cfg} (hg : cfg.Good) {s : St} {d : Disk} (h : 
       simp only [Holds]
       have := h.todo_ge_edit hj he hrs hr
       show ∀ n ∈ r.todo, e.jn.getD v.jn ≤ n
-      rw [ex] at this ⊢
+      rw [hok.jn_getD (by rw [hr]; decide) he]
       exact this
   · intro hcr; exact absurd hcr hph
   · show JobOK cfg _ _ j'
@@ -112,5 +122,13 @@ theorem inv_job_rotSetMeta {cfg : Cfg} (hg : cfg.Good) {s : St} {d : Disk} (h : 
       simp only [Holds]
       exact late_not_rm (j := j') ⟨(by intro l x; cases x), (by intro l x; cases x), (by intro l x; cases x)⟩
     · intro hn; rw [he] at hn; cases hn
+    · exact fun _ => rfl
+    · exact fun _ => rfl
+    · intro _
+      rw [hlv1]
+      intro o ho
+      refine ⟨mem_applyEdit.2 (Or.inr ?_), hok.outs_on_disk hbc hlate.2 o ho⟩
+      rw [hed.shape.1]
+      exact List.mem_map.2 ⟨o, ho, rfl⟩
 
 end GoLevel.Dur
